@@ -390,12 +390,13 @@ Definition facts_of (e : entry) (tree : sexp) : option tree_facts :=
 
 Definition line_ok (lines : N) (p : pos) : bool := N.leb 1 (line p) && N.leb (line p) (lines + 1).
 
-Definition oracle_run (e : entry) (r : run) : option string :=
+Definition oracle_run (e : entry) (rf : run * option tree_facts) : option string :=
+  let r := fst rf in
   let toks := map st_tok (r_toks r) in
   match r_tree r, r_errs r with
   | Some tree, [] =>
       (* accepted *)
-      match facts_of e tree with
+      match snd rf with
       | None => Some "accepted-malformed-tree"
       | Some f =>
           if negb (forallb (fun t => match st_errs t with [] => true | _ => false end) (r_toks r)
@@ -513,16 +514,18 @@ Definition compare_outcome (how : string) (m : option (option sexp * list pos)) 
       end
   end.
 
-Definition from_bytes_limit : N := 2048.
+(** default of the case field [fblimit] *)
+Definition from_bytes_limit : N := 1024.
 
 (** the parser model on the real scanner's tokens; and, from the bytes, the scanner model against
     the real scanner's stream and the composed model against the real parser's result *)
 (** the real Position() methods on the returned tree against the model's position functions on
     the same tree *)
-Definition compare_posm (e : entry) (r : run) : option sexp :=
+Definition compare_posm (rf : run * option tree_facts) : option sexp :=
+  let r := fst rf in
   match r_tree r, r_posm r with
   | Some tree, Some ps =>
-      match facts_of e tree with
+      match snd rf with
       | Some f => if pos_list_eqb (tf_pm f) ps then None
                   else Some (v_mismatch "position-methods" [tag "model" [enc_errs (tf_pm f)]])
       | None => None       (* a malformed tree is the oracle's business *)
@@ -530,19 +533,20 @@ Definition compare_posm (e : entry) (r : run) : option sexp :=
   | _, _ => None
   end.
 
-Definition compare_run (e : entry) (r : run) : option sexp :=
+Definition compare_run (e : entry) (limit : N) (rf : run * option tree_facts) : option sexp :=
+  let r := fst rf in
   match compare_outcome "from-tokens" (model_run e r) r with
   | Some v => Some v
   | None =>
-      match compare_posm e r with
+      match compare_posm rf with
       | Some v => Some v
       | None =>
       match r_src r with
       | None => None
       | Some src =>
-          (* the scanner model recomputes the length of the remaining input at every Scan call:
-             quadratic; texts above [from_bytes_limit] are compared through their tokens only *)
-          if N.ltb from_bytes_limit (N.of_nat (List.length src)) then None else
+          (* the extracted scanner model costs about 5 microseconds per byte: texts above the
+             limit the harness sets for the tier are compared through their tokens only *)
+          if N.ltb limit (N.of_nat (List.length src)) then None else
           match front_matches src r with
           | None => Some (v_mismatch "front-end-out-of-fuel" [])
           | Some false => Some (v_mismatch "front-end-token-stream" [])
@@ -556,7 +560,7 @@ Definition compare_run (e : entry) (r : run) : option sexp :=
 Definition has_tok (v : bytes) (k : kind) (r : run) : bool :=
   existsb (fun t => kind_eqb (tk (st_tok t)) k && bytes_eqb (tv (st_tok t)) v) (r_toks r).
 
-Definition classes_run (e : entry) (r : run) : list string :=
+Definition classes_run (e : entry) (limit : N) (r : run) : list string :=
   let n := List.length (r_toks r) in
   let acc := accepted r in
   let lexerr := negb (forallb (fun t => match st_errs t with [] => true | _ => false end) (r_toks r))
@@ -582,7 +586,7 @@ Definition classes_run (e : entry) (r : run) : list string :=
   (if Nat.leb 1000 n then ["thousand-tokens"] else []) ++
   (match r_tree r, r_posm r with Some _, Some (_ :: _) => ["position-methods-compared"] | _, _ => [] end) ++
   (match r_src r with
-   | Some src => if N.ltb from_bytes_limit (N.of_nat (List.length src)) then ["from-tokens-only"] else ["from-bytes"]
+   | Some src => if N.ltb limit (N.of_nat (List.length src)) then ["from-tokens-only"] else ["from-bytes"]
    | None => ["from-tokens-only"]
    end) ++
   (if acc || (negb lexerr && negb (pos_eqb lastp first)) then ["nontrivial"] else []).
@@ -600,9 +604,14 @@ Definition check (c : sexp) : sexp :=
       match field1 "entry" l, field1 "family" l, field "runs" l, field1 "expect" l with
       | Some en, Some (SSym fam), Some rs, Some ex =>
           let e := if is_sym "value" en then EValue else EDoc in
+          let limit := match field1 "fblimit" l with
+                       | Some x => match as_N x with Some n => n | None => from_bytes_limit end
+                       | None => from_bytes_limit
+                       end in
           match map_opt dec_run rs with
           | Some ((r0 :: _) as runs) =>
-              let o1 := first_some (oracle_run e) runs in
+              let rfs := map (fun r => (r, match r_tree r with Some t => facts_of e t | None => None end)) runs in
+              let o1 := first_some (oracle_run e) rfs in
               let o2 := match o1 with
                         | Some k => Some k
                         | None => if is_sym "none" ex then None
@@ -615,11 +624,11 @@ Definition check (c : sexp) : sexp :=
               match o3 with
               | Some k => v_oracle_fail k []
               | None =>
-                  match first_some (compare_run e) runs with
+                  match first_some (compare_run e limit) rfs with
                   | Some v => v
                   | None =>
                       let fams := if is_sym "none" ex then [fam] else [fam; "printed-tree"] in
-                      v_ok (fams ++ classes_run e r0 ++
+                      v_ok (fams ++ classes_run e limit r0 ++
                             (if is_sym "none" ex then [] else
                                match facts_of e ex with
                                | Some f => if Z.ltb max_recursion (tf_depth f) then ["beyond-recursion-limit"]
